@@ -2,6 +2,7 @@ package harness
 
 import (
 	"context"
+	"github.com/ipld/go-storethehash/store/types"
 	"errors"
 	"fmt"
 	"github.com/ipld/go-storethehash/store"
@@ -21,7 +22,11 @@ import (
 // ---- recorded concurrent history ----
 
 type callRec struct {
-	Thread   int
+	// LocAfter: where the index says the key lives right after an update
+	// returned (recorded only in ledger scenarios, by the updating thread).
+	LocAfter    types.Block
+	HasLocAfter bool
+	Thread      int
 	Op       Op
 	Key      string // key name
 	Call     int
@@ -283,6 +288,11 @@ func execStore(t *testing.T, sc *ConcScenario, choose chooser) *execResult {
 				s.clock++
 				r.Ret = s.clock
 				r.Returned = true
+				if w.ledger != nil && op.Kind == OpPut && r.Err == "" {
+					if blk, found, err := w.idx().Get(w.Keys[op.K].Digest); err == nil && found {
+						r.LocAfter, r.HasLocAfter = blk, true
+					}
+				}
 			}
 		})
 	}
@@ -338,6 +348,25 @@ func execStore(t *testing.T, sc *ConcScenario, choose chooser) *execResult {
 		return res
 	}
 	s.releaseAll()
+	if sc.Extra["fsckOnly"] == true {
+		// C07 under engine A: only the files' mutual consistency at
+		// quiescence is this run's business
+		res.outcome = "fsck"
+		if err := w.S.Flush(); err == nil {
+			if v := w.FsckOpen(); v != nil {
+				res.viol = v
+			} else if err := w.Close(); err == nil {
+				if v := w.FsckClosed(); v != nil {
+					res.viol = v
+				}
+			}
+		}
+		func() {
+			defer func() { recover() }()
+			w.Close()
+		}()
+		return res
+	}
 	// oracles
 	var sb strings.Builder
 	for _, r := range recs {
@@ -1291,21 +1320,37 @@ func ledgerConcFinal(w *World, s *Sched, recs []callRec, res *execResult) {
 	if res.viol != nil || w.ledger == nil {
 		return
 	}
+	w.ledger.concurrent = true
+	// every key is updated by one thread only; its calls are in program
+	// order in recs, so the location an update supersedes is the one the
+	// previous update of that key produced (or the initial one)
+	curLoc := map[string]types.Block{}
+	hasLoc := map[string]bool{}
+	for d, b := range w.initLocs {
+		curLoc[d], hasLoc[d] = b, true
+	}
 	for _, r := range recs {
 		if !r.Returned || r.Err != "" {
 			continue
 		}
 		k := w.keyByName(r.Key)
-		old, had := w.initLocs[string(k.Digest)]
+		d := string(k.Digest)
 		switch r.Op.Kind {
 		case OpPut:
-			if had {
-				w.ledger.superseded(old, "overwrite of "+r.Key)
+			if hasLoc[d] {
+				w.ledger.superseded(curLoc[d], "overwrite of "+r.Key)
+			}
+			if r.HasLocAfter {
+				curLoc[d], hasLoc[d] = r.LocAfter, true
+				w.ledger.markCurrent(r.LocAfter)
+			} else {
+				hasLoc[d] = false
 			}
 		case OpRemove:
-			if had && r.Removed {
-				w.ledger.superseded(old, "remove of "+r.Key)
+			if hasLoc[d] && r.Removed {
+				w.ledger.superseded(curLoc[d], "remove of "+r.Key)
 			}
+			hasLoc[d] = false
 		}
 	}
 	// the model is what the quiescent store holds (only used for "is this
@@ -1353,6 +1398,10 @@ func c13ConcScenarios(tier string) []*ConcScenario {
 		{{P(0, 2), opF}, gc},
 		{{R(4)}, {P(0, 2)}, {opF}},
 		{{R(4), opF}, {P(0, 2)}, gc},
+		// two overwrites of one key around a flush: the freelist can name a
+		// record that is still in the primary's write pool
+		{{P(0, 2), P(0, 3)}, {opF}},
+		{{P(0, 2), P(0, 3)}, {opF}, gc},
 	}
 	bound := 2
 	cfgs := []Config{cfg("mh", false, 8, 48, 48)}
@@ -1370,6 +1419,32 @@ func c13ConcScenarios(tier string) []*ConcScenario {
 			sc.Desc = fmt.Sprintf("init [%s]; %s", opsString(init), progString(ths))
 			scs = append(scs, sc)
 		}
+		// with unflushed work at the start, so that a Flush thread commits
+		// (primary, then index, then freelist) while K0 is overwritten twice
+		init2 := append(append([]Op{}, init...), P(4, 2))
+		ths := [][]Op{{P(0, 2), P(0, 3)}, {opF}, gc}
+		sc := &ConcScenario{Prop: "C13", Cfg: c, Init: init2, Threads: ths, Bound: bound, Exec: execStore,
+			Extra: map[string]any{"logSites": true, "final": ledgerConcFinal}}
+		sc.Name = fmt.Sprintf("c13/%s/unflushed/%s", c.String(), progString(ths))
+		sc.Desc = fmt.Sprintf("init [%s]; %s", opsString(init2), progString(ths))
+		scs = append(scs, sc)
 	}
 	return scs
+}
+
+
+// c07ConcScenarios: the C06 scenario set with one preemption less and fsck as
+// the only oracle (C07: "every quiescent state reachable in the explorations
+// of C01-C06").
+func c07ConcScenarios(tier string) []*ConcScenario {
+	var out []*ConcScenario
+	for _, sc := range c06Scenarios(tier) {
+		c := *sc
+		c.Prop = "C07"
+		c.Bound = sc.Bound - 1
+		c.Name = "c07/" + sc.Name
+		c.Extra = map[string]any{"fsckOnly": true}
+		out = append(out, &c)
+	}
+	return out
 }
